@@ -76,7 +76,7 @@ PADS_AFTER = ["", "\n// é after\n", "\r\n\r\n"]
 def planted_programs(rng, count):
     """yield (text, kind, line, col_or_None, closer) - col is the 1-based column of the construct,
     None when the text before it on its own line is not ASCII"""
-    kinds = ["error", "assert", "undef", "trace", "syntax", "field"]
+    kinds = ["error", "assert", "undef", "trace", "syntax", "field", "eof", "eol-span"]
     for _ in range(count):
         kind = rng.choice(kinds)
         before = "".join(rng.choice(PADS_BEFORE) for _ in range(rng.randrange(0, 4)))
@@ -97,6 +97,19 @@ def planted_programs(rng, count):
             construct = "std.trace('T', 1)"
         elif kind == "field":
             construct = "{a: 1}.nofield"
+        elif kind == "eof":
+            # input ends right after the last token (with or without a line end): the syntax error
+            # belongs to the line of that token
+            construct = "[1, 2,"
+            closer = ""
+            after = rng.choice(["", "\n", "\r\n"])
+        elif kind == "eol-span":
+            # a runtime frame whose span ends exactly at the end of its line
+            construct = "error 'boom'"
+            closer = ""
+            after = rng.choice(["\n", "\r\n", "\r\n\r\n// c\r\n"])
+            if same.startswith("["):
+                same = "1 + "
         else:
             construct = "]"   # unexpected token
             if same.startswith("["):
@@ -111,10 +124,12 @@ def planted_programs(rng, count):
             col = col + len("{a: 1}.") if col is not None else None
         if kind == "trace":
             col = None   # trace events carry a line only
+        if kind == "eof":
+            col = None   # only the line is pinned for an error at the end of input
         yield text, kind, line, col
 
 
-LOC_RE = re.compile(r":(\d+):(\d+)")
+LOC_RE = re.compile(r":(\d+):(\d+)(?:-(\d+)(?::(\d+))?)?")
 
 
 def check_position(acc, w, text, kind, line, col):
@@ -153,6 +168,16 @@ def check_position(acc, w, text, kind, line, col):
             acc.violation({"oracle": "position", "what": "no-location", "construct": kind}, dict(wit, observed=pay["text"]))
             return
         got_line, got_col = int(loc.group(1)), int(loc.group(2))
+        # the end of the reported range must not lie before its start
+        if loc.group(3) is not None:
+            if loc.group(4) is not None:
+                eline, ecol = int(loc.group(3)), int(loc.group(4))
+            else:
+                eline, ecol = got_line, int(loc.group(3))
+            if (eline, ecol) < (got_line, got_col) or eline > text.count("\n") + 1:
+                acc.violation({"oracle": "position", "what": "range-end-before-start", "construct": kind,
+                               "crlf": "\r\n" in text}, dict(wit, observed=pay["text"]))
+                return
     wit["observed_line"], wit["observed_col"] = got_line, got_col
     nonascii_before = any(ord(c) > 127 for c in text[:text.find("\n" * 0) if False else len(text)])
     if got_line != line:
@@ -164,6 +189,76 @@ def check_position(acc, w, text, kind, line, col):
                        "nonascii_in_file": any(ord(c) > 127 for c in text)}, wit)
         return
     acc.add("distinct", runner.h64(text))
+
+
+FRAME_RE = re.compile(r"^\s+(\S+?):(\d+):(\d+)(?:-(\d+)(?::(\d+))?)?:? ", re.M)
+
+
+def two_file_case(acc, w, rng, root, seq):
+    """an error raised inside an imported file: every frame must carry the line/column of its own
+    file, also when byte offsets of frames in different files coincide"""
+    import os
+    lib_pad = "".join(rng.choice(["// lib comment\n", "\n", "/* é */\n", "local unused = 'xxxxxxxxxxxx';\n", "# h\r\n"])
+                      for _ in range(rng.randrange(2, 7)))
+    lib_same = rng.choice(["{ crash: ", "{ other: 1, crash: ", "local o = { crash: "])
+    lib_tail = " }" if not lib_same.startswith("local") else " }; o"
+    lib = lib_pad + lib_same + "error 'boom'" + lib_tail
+    err_off = len((lib_pad + lib_same).encode("utf-8"))
+    lib_line = lib_pad.count("\n") + 1
+    lib_col = len(lib_same) + 1
+    head = "local lib = import 'lib.libsonnet';\n"
+    access = "lib."
+    # make the offset of `crash` in main coincide with an offset of the error span in lib
+    target = err_off + rng.choice([0, 0, len("error"), -len(access)])
+    fill = target - len(head.encode()) - len(access) - 1
+    if fill < 4:
+        filler = ""
+    else:
+        k = rng.randrange(0, 3)
+        filler = "//" + "f" * (fill - 2 - k) + "\n" * k if fill - 2 - k >= 0 else ""
+    main = head + filler + "\n" + access + "crash"
+    main_line = (head + filler + "\n").count("\n") + 1
+    main_col = len(access) + 1
+    d = os.path.join(root, "t%d" % seq)
+    os.makedirs(d, exist_ok=True)
+    with open(os.path.join(d, "lib.libsonnet"), "w", newline="") as f:
+        f.write(lib)
+    with open(os.path.join(d, "main.jsonnet"), "w", newline="") as f:
+        f.write(main)
+    acc.inc("evaluations")
+    acc.inc("planted_two_file")
+    rec = w.call({"op": "eval", "file": os.path.join(d, "main.jsonnet"), "err_detail": True}, timeout=60)
+    cls, pay = outcome(rec)
+    wit = {"lib": lib, "main": main, "expected": {"lib": [lib_line, lib_col], "main": [main_line, main_col]}}
+    if cls != "err":
+        acc.inconclusive.append({"case": wit, "why": "no error: %s" % cls})
+        return
+    frames = FRAME_RE.findall(pay["text"])
+    wit["observed"] = pay["text"]
+    seen = {"lib": False, "main": False}
+    for path, line, col, e1, e2 in frames:
+        which = "lib" if path.endswith("lib.libsonnet") else "main" if path.endswith("main.jsonnet") else None
+        if which is None:
+            continue
+        want_line, want_col = wit["expected"][which]
+        nlines = (lib if which == "lib" else main).count("\n") + 1
+        if int(line) > nlines or int(line) < 1:
+            acc.violation({"oracle": "position", "what": "line-outside-file", "construct": "two-file"}, wit)
+            return
+        if which == "lib" and not seen["lib"]:
+            seen["lib"] = True
+            if int(line) != want_line or (lib_same.isascii() and int(col) != want_col):
+                acc.violation({"oracle": "position", "what": "wrong-position-in-imported-file", "construct": "two-file"}, wit)
+                return
+        if which == "main" and not seen["main"]:
+            seen["main"] = True
+            if int(line) != want_line or int(col) != want_col:
+                acc.violation({"oracle": "position", "what": "wrong-position-in-importer", "construct": "two-file"}, wit)
+                return
+    if seen["lib"] and seen["main"]:
+        acc.add("distinct", runner.h64(lib + main))
+    else:
+        acc.inc("two_file_frames_missing")
 
 
 def shard(idx, n, tier, seed, binary):
@@ -213,6 +308,14 @@ def shard(idx, n, tier, seed, binary):
         # planted positions
         for text, kind, line, col in planted_programs(rng, (2500 if tier == "quick" else 40000) // n):
             check_position(acc, w, text, kind, line, col)
+        import tempfile
+        import shutil
+        root = tempfile.mkdtemp(prefix="c17-")
+        try:
+            for k in range((400 if tier == "quick" else 6000) // n):
+                two_file_case(acc, w, rng, root, k)
+        finally:
+            shutil.rmtree(root, ignore_errors=True)
         if idx == 0:
             acc.sample({"planted": "// é comment\nlocal z = 2; error 'boom'", "expected": [2, 14]})
     finally:
